@@ -721,9 +721,13 @@ class PrefixedSubAppResource(PrefixResource):
         for resource in router.resources():
             # Since the canonical path of a resource is about
             # to change, we need to unindex it and then reindex
-            router.unindex_resource(resource)
+            # (domain sub-apps are matched by rule and never indexed).
+            indexed = not isinstance(resource, MatchedSubAppResource)
+            if indexed:
+                router.unindex_resource(resource)
             resource.add_prefix(prefix)
-            router.index_resource(resource)
+            if indexed:
+                router.index_resource(resource)
 
     def url_for(self, *args: str, **kwargs: str) -> URL:
         raise RuntimeError(".url_for() is not supported by sub-application root")
